@@ -35,6 +35,7 @@ type c15Case struct {
 	Handlers   []c15Handler `json:"handlers"`
 	Empty      bool         `json:"empty,omitempty"`       // the peer sent an empty data frame some time before the connection ends
 	Partial    bool         `json:"partial,omitempty"`     // the peer has sent the first fragment of a message and never completes it
+	DupIDs     bool         `json:"dup_ids,omitempty"`     // the peer re-used the ids of calls that are still running for further calls (their handlers belong to the connection all the same)
 	LateCancel bool         `json:"late_cancel,omitempty"` // the peer sent xrpc.cancel for ids the server is not handling (a cancel that arrives after its call was answered)
 	Stall      bool         `json:"stall,omitempty"`       // the link stops moving data while a large response is being written (server pings every 40 ms)
 }
@@ -161,6 +162,16 @@ func runC15(c c15Case) (*Violation, string) {
 			return violf("empty-frame-wedges-connection", "after an empty data frame from the peer a call on the same connection failed: %v", err), ""
 		}
 	}
+	var dupToks []string
+	if c.DupIDs {
+		for id := 1; id <= 3; id++ {
+			tok := rig.Tok("dup")
+			rig.Proxy.InjectClientFrame(fmt.Sprintf(`{"jsonrpc":"2.0","id":%d,"method":"Tok.Call","params":[%q,{"gate":true,"watch_ctx":true}]}`, id, tok))
+			if rig.W.WaitStarted(tok, time.Second) {
+				dupToks = append(dupToks, tok)
+			}
+		}
+	}
 	if c.LateCancel {
 		rig.Proxy.InjectClientFrame(`{"jsonrpc":"2.0","method":"xrpc.cancel","params":[987654]}`)
 		rig.Proxy.InjectClientFrame(`{"jsonrpc":"2.0","method":"xrpc.cancel","params":["never-used"]}`)
@@ -227,6 +238,16 @@ func runC15(c c15Case) (*Violation, string) {
 			return violf("handler-context-not-cancelled", "connection ended (%s) but the context of %s handler %s is still live after 3s", c.Cause, h.Kind, h.p.Tok), ""
 		}
 	}
+	for _, tok := range dupToks {
+		ctx := rig.W.Ctx(tok)
+		for ctx.Err() == nil && time.Now().Before(deadline) {
+			time.Sleep(time.Millisecond)
+		}
+		if ctx.Err() == nil {
+			return violf("handler-context-not-cancelled", "connection ended (%s) but the context of handler %s, whose request re-used the id of a call still in progress, is still live after 3s", c.Cause, tok), ""
+		}
+		rig.W.Release(tok)
+	}
 	// 2. let the late finishers finish now (they will try to respond on a connection that is gone)
 	for _, h := range hsl {
 		rig.W.Release(h.p.Tok)
@@ -289,6 +310,9 @@ func c15NT(c c15Case) (bool, []string) {
 	if c.Stall {
 		cl = append(cl, "stalled_write_at_end")
 	}
+	if c.DupIDs {
+		cl = append(cl, "request_ids_reused_while_running")
+	}
 	if c.LateCancel {
 		cl = append(cl, "late_cancel_before_end")
 	}
@@ -310,7 +334,7 @@ func TestC15(t *testing.T) {
 	rec := NewRec("C15", c15Rule)
 	defer rec.Finish(t)
 	rec.EnableJournal()
-	rec.RequireClass("late_cancel_before_end", "handler_substart", "partial_message_pending", "stalled_write_at_end", "empty_frame_before_end", "cause_closer", "cause_fin", "cause_rst", "cause_server_ctx", "handler_watch", "handler_late", "handler_notify", "handler_stream", "handler_reverse", "large_response")
+	rec.RequireClass("request_ids_reused_while_running", "late_cancel_before_end", "handler_substart", "partial_message_pending", "stalled_write_at_end", "empty_frame_before_end", "cause_closer", "cause_fin", "cause_rst", "cause_server_ctx", "handler_watch", "handler_late", "handler_notify", "handler_stream", "handler_reverse", "large_response")
 	known := rec.IsKnown("lazywriter-leak")
 	run := func(ft failer, c c15Case) {
 		if known {
@@ -360,6 +384,7 @@ func TestC15(t *testing.T) {
 			}
 			run(t, c15Case{Cause: cause, Handlers: []c15Handler{{Kind: "substart", Count: 200}, {Kind: "stream"}}})
 			run(t, c15Case{Cause: cause, Handlers: []c15Handler{{Kind: "watch"}, {Kind: "notify"}, {Kind: "stream"}}, LateCancel: true})
+			run(t, c15Case{Cause: cause, Handlers: []c15Handler{{Kind: "watch"}, {Kind: "watch"}, {Kind: "stream"}, {Kind: "watch"}}, DupIDs: true})
 			for i, a := range c15Kinds {
 				k++
 				if k%nsh == sh {
@@ -380,7 +405,7 @@ func TestC15(t *testing.T) {
 	})
 	rec.Rapid(t, "rapid", func(rt *rapid.T) {
 		c := c15Case{Cause: rapid.SampledFrom(c15Causes).Draw(rt, "cause"), Empty: rapid.IntRange(0, 3).Draw(rt, "empty") == 0,
-			Partial: rapid.IntRange(0, 3).Draw(rt, "partial") == 0, Stall: rapid.IntRange(0, 5).Draw(rt, "stall") == 0, LateCancel: rapid.IntRange(0, 3).Draw(rt, "latecancel") == 0}
+			Partial: rapid.IntRange(0, 3).Draw(rt, "partial") == 0, Stall: rapid.IntRange(0, 5).Draw(rt, "stall") == 0, LateCancel: rapid.IntRange(0, 3).Draw(rt, "latecancel") == 0, DupIDs: rapid.IntRange(0, 3).Draw(rt, "dupids") == 0}
 		if c.Stall && (c.Cause == "closer" || c.Empty || c.Partial) {
 			c.Stall = false // the closer / a probe would itself wait for the stalled link
 		}
